@@ -10,11 +10,25 @@
 #include "tok_util.h"
 #include <cerrno>
 #include <unistd.h>
+extern "C" {
+#include "linkhash.h"
+#include "arraylist.h"
+}
 #include <algorithm>
 
 namespace
 {
 static const char *const kConstKeys[4] = {"ck0", "ck1", "constant-key-two", ""};
+static void lh_free_key(struct lh_entry *e)
+{
+	HarnessScope hs;
+	free(lh_entry_k(e));
+}
+static void al_free_elem(void *p)
+{
+	HarnessScope hs;
+	free(p);
+}
 
 struct C08 : Property
 {
@@ -28,7 +42,7 @@ struct C08 : Property
 		       "around the inline threshold, pre-serialized buffers) + one operation under test out of {parse one-shot / parse_ex / chunked parse_ex, 12 constructors, "
 		       "object add/add_ex (new, existing, constant key), array add/insert/put/shrink, set_string(_len), deep_copy, serialize (7 flag sets, first use and cached "
 		       "buffer, get_string on non-strings), json_pointer_set/setf/get/getf, json_patch_apply in place and copy_from, json_object_from_fd(_ex), json_tokener_new_ex, "
-		       "json_c_set_serialization_double_format}. Single allocation faults are enumerated exhaustively per workload (every k < N), double faults are sampled. "
+		       "json_c_set_serialization_double_format, lh_table_* and array_list_* sequences used directly}. Single allocation faults are enumerated exhaustively per workload (every k < N), double faults are sampled. "
 		       "evaluations = workloads; steps.faulted_executions counts re-executions. A workload is non-trivial if N >= 1; distinct = distinct sets of "
 		       "(operation kind, failing call-site chain, outcome) keys.";
 	}
@@ -95,7 +109,7 @@ struct C08 : Property
 		static const int thresholds[] = {0, 1, 9, 10, 11, 12, 20, 21, 22, 31, 32, 33, 42, 43, 64};
 		static const int serflags[] = {0, 1, 2, 3, 2 | 8, 16, 1 | 2 | 32, 4};
 		int n = thresholds[r.below(sizeof thresholds / sizeof *thresholds)];
-		switch (r.below(16))
+		switch (r.below(18))
 		{
 		case 0: // parse
 		case 1:
@@ -203,6 +217,12 @@ struct C08 : Property
 			break;
 		}
 		case 14: p.ops.push_back(mk("t_toknew", {(int64_t)r.pick(std::vector<int>{1, 2, 32, 100})})); break;
+		case 16: // the hash table entry points directly
+			p.ops.push_back(mk("t_lh", {(int64_t)r.pick(std::vector<int>{1, 2, 3, 8, 16}), (int64_t)r.range(1, 30), (int64_t)r.below(1000)}));
+			break;
+		case 17: // the array list entry points directly
+			p.ops.push_back(mk("t_al", {(int64_t)r.pick(std::vector<int>{0, 1, 4, 32}), (int64_t)r.range(1, 40), (int64_t)r.below(1000)}));
+			break;
 		default: // double format
 			if (r.chance(1, 2))
 				p.ops.push_back(mk("s_fmt", {(int64_t)r.below(2)}, "%.3f"));
@@ -787,6 +807,160 @@ struct C08 : Property
 					e.result += ";" + r.dump;
 					LIBV(json_tokener_free(t));
 				}
+			}
+			// ---------------------------------------------------------------- lh_table / array_list used directly
+			else if (op.kind == "t_lh")
+			{
+				// sequence under one fault script: new, n inserts (a failed insert is retried once, must then succeed), lookups, deletes, free
+				int size = (int)op.arg(0, 4), n = (int)op.arg(1, 5);
+				if (size < 1)
+					size = 1;
+				if (size > 64)
+					size = 64;
+				if (n > 60)
+					n = 60;
+				e.ran = true;
+				Rng kr((uint64_t)op.arg(2) + 1);
+				std::vector<std::string> keys;
+				for (int i = 0; i < n; i++)
+					keys.push_back("key" + std::to_string(kr.below(40)) + (i % 3 ? "" : "-x"));
+				arm();
+				struct lh_table *t = LIB(lh_kchar_table_new(size, lh_free_key));
+				std::string res;
+				int inserted = 0, retried = 0;
+				if (!t)
+				{
+					e.failed = true;
+					res = "NULL";
+				}
+				else
+				{
+					std::vector<std::string> live;
+					for (int i = 0; i < n; i++)
+					{
+						if (LIB(lh_table_lookup_entry(t, keys[(size_t)i].c_str())))
+							continue; // callers look a key up before inserting it
+						char *kc = strdup(keys[(size_t)i].c_str());
+						int rc = LIB(lh_table_insert(t, kc, (void *)(intptr_t)(i + 1)));
+						if (rc != 0)
+						{
+							retried++;
+							// the failed insert must have changed nothing: every earlier key is still there
+							for (auto &k : live)
+								if (!LIB(lh_table_lookup_entry(t, k.c_str())))
+								{
+									disarm();
+									bad(ctx, "altered-preexisting", e, fails, ti, "after a failed lh_table_insert key '%s' is no longer found", k.c_str());
+								}
+							std::vector<long> saved = g_alloc.fail_at;
+							g_alloc.fail_at.clear();
+							rc = LIB(lh_table_insert(t, kc, (void *)(intptr_t)(i + 1)));
+							g_alloc.fail_at = saved;
+							if (rc != 0)
+							{
+								disarm();
+								free(kc);
+								bad(ctx, "table-unusable-after-failure", e, fails, ti, "retrying the failed lh_table_insert without fault failed again");
+							}
+						}
+						live.push_back(keys[(size_t)i]);
+						inserted++;
+					}
+					disarm();
+					if (LIB(lh_table_length(t)) != (int)live.size())
+						bad(ctx, "wrong-result", e, fails, ti, "lh_table_length %d after %zu successful inserts", LIB(lh_table_length(t)), live.size());
+					std::string order;
+					{
+						LibScope ls;
+						struct lh_entry *en;
+						lh_foreach(t, en) order += std::string((const char *)lh_entry_k(en)) + "=" + std::to_string((intptr_t)lh_entry_v(en)) + ",";
+					}
+					for (size_t i = 0; i < live.size(); i += 2)
+						if (LIB(lh_table_delete(t, live[i].c_str())) != 0)
+							bad(ctx, "wrong-result", e, fails, ti, "lh_table_delete of live key '%s' failed", live[i].c_str());
+					res = "inserted=" + std::to_string(inserted) + ";" + order + ";len=" + std::to_string(LIB(lh_table_length(t)));
+					LIBV(lh_table_free(t));
+				}
+				if (!t)
+					disarm();
+				e.result = res;
+				(void)retried;
+			}
+			else if (op.kind == "t_al")
+			{
+				int cap = (int)op.arg(0, 32), n = (int)op.arg(1, 5);
+				if (cap < 0)
+					cap = 0;
+				if (cap > 64)
+					cap = 64;
+				if (n > 60)
+					n = 60;
+				e.ran = true;
+				Rng kr((uint64_t)op.arg(2) + 7);
+				arm();
+				struct array_list *al = LIB(array_list_new2(al_free_elem, cap));
+				std::string res;
+				if (!al)
+				{
+					e.failed = true;
+					res = "NULL";
+					disarm();
+				}
+				else
+				{
+					std::vector<intptr_t> model;
+					auto snapshot = [&]() {
+						std::string o;
+						size_t len = LIB(array_list_length(al));
+						for (size_t i = 0; i < len; i++)
+							o += std::to_string((intptr_t)LIB(array_list_get_idx(al, i)) ? *(int *)LIB(array_list_get_idx(al, i)) : 0) + ",";
+						return o;
+					};
+					for (int i = 0; i < n; i++)
+					{
+						int *v = (int *)malloc(sizeof(int));
+						*v = i + 1;
+						int which = (int)kr.below(4);
+						size_t len = LIB(array_list_length(al));
+						size_t idx = len ? (size_t)kr.below(len + 3) : 0;
+						std::string before_op = snapshot();
+						auto doit = [&]() {
+							LibScope ls;
+							switch (which)
+							{
+							case 0: return array_list_add(al, v);
+							case 1: return array_list_put_idx(al, idx, v);
+							case 2: return array_list_insert_idx(al, idx, v);
+							default: return array_list_shrink(al, idx % 5);
+							}
+						};
+						int rc = doit();
+						if (rc != 0)
+						{
+							if (snapshot() != before_op)
+							{
+								disarm();
+								bad(ctx, "altered-preexisting", e, fails, ti, "a failed array_list call changed the list: %s -> %s", before_op.c_str(), snapshot().c_str());
+							}
+							std::vector<long> saved = g_alloc.fail_at;
+							g_alloc.fail_at.clear();
+							rc = doit();
+							g_alloc.fail_at = saved;
+							if (rc != 0)
+							{
+								disarm();
+								free(v);
+								bad(ctx, "list-unusable-after-failure", e, fails, ti, "retrying the failed array_list call without fault failed again");
+							}
+						}
+						if (which == 3)
+							free(v); // shrink stores nothing
+					}
+					disarm();
+					res = snapshot();
+					LIBV(array_list_free(al));
+				}
+				e.result = res;
 			}
 			// ---------------------------------------------------------------- double format
 			else if (op.kind == "t_fmt" && !slots.empty() && slot(0))
